@@ -14,6 +14,7 @@
 
 import os
 import re
+import errno
 import signal
 import socket
 import logging
@@ -134,6 +135,13 @@ class RemoteServer():
                             child = recv_msg(cli, { '_socket': cli, '_reset_sigterm_hnd': True }, comment='server: remote worker')
                         except ConnectionClosedError:
                             logger.info('Client disconnected before child was successfully created')
+                            continue
+                        except OSError as e:
+                            if e.errno != errno.ENOTCONN:
+                                raise
+                            # getpeername()/accept() on a connection which the client has already reset
+                            logger.info('Client reset its connection before child was successfully created')
+                            cli.close()
                             continue
 
                         self.children.append(child)
